@@ -1,6 +1,7 @@
 //! One module per property.
 pub mod common;
 pub mod progs;
+pub mod selftest;
 pub mod c01;
 pub mod c02;
 pub mod c03;
